@@ -31,11 +31,15 @@ class ModelUnsupportedAttr(AttributeError):
 
 
 class FDirEntry(object):
-    __slots__ = ('name', 'path', '_kind', '_ino', '_os')
+    __slots__ = ('name', 'path', '_kind', '_ino', '_os', '_dirfd')
 
     def __init__(self, osf, dirpath, name, kind, ino):
         self.name = name
-        if dirpath in ('.', ''):
+        self._dirfd = None
+        if isinstance(dirpath, int):  # scandir(fd): paths are bare names relative to the fd
+            self._dirfd = dirpath
+            self.path = name
+        elif dirpath in ('.', ''):
             self.path = name
         elif dirpath.endswith('/'):
             self.path = dirpath + name
@@ -58,7 +62,7 @@ class FDirEntry(object):
         if self._kind != 'l' or not follow_symlinks:
             return self._kind == 'd'
         try:
-            return _stat.S_ISDIR(self._os.stat(self.path).st_mode)
+            return _stat.S_ISDIR(self._os.stat(self.path, dir_fd=self._dirfd).st_mode)
         except OSError:
             return False
 
@@ -66,12 +70,12 @@ class FDirEntry(object):
         if self._kind != 'l' or not follow_symlinks:
             return self._kind == 'f'
         try:
-            return _stat.S_ISREG(self._os.stat(self.path).st_mode)
+            return _stat.S_ISREG(self._os.stat(self.path, dir_fd=self._dirfd).st_mode)
         except OSError:
             return False
 
     def stat(self, follow_symlinks=True):
-        return self._os.stat(self.path, follow_symlinks=follow_symlinks)
+        return self._os.stat(self.path, dir_fd=self._dirfd, follow_symlinks=follow_symlinks)
 
     def __fspath__(self):
         return self.path
@@ -193,7 +197,7 @@ class FOs(object):
     error = OSError
     O_RDONLY, O_WRONLY, O_RDWR = pm.O_RDONLY, pm.O_WRONLY, pm.O_RDWR
     O_CREAT, O_EXCL, O_TRUNC, O_APPEND = pm.O_CREAT, pm.O_EXCL, pm.O_TRUNC, pm.O_APPEND
-    O_NOFOLLOW, O_DIRECTORY, O_CLOEXEC = pm.O_NOFOLLOW, pm.O_DIRECTORY, pm.O_CLOEXEC
+    O_NOFOLLOW, O_DIRECTORY, O_CLOEXEC, O_NONBLOCK = pm.O_NOFOLLOW, pm.O_DIRECTORY, pm.O_CLOEXEC, pm.O_NONBLOCK
     F_OK, R_OK, W_OK, X_OK = 0, 4, 2, 1
     EX_OK, EX_USAGE, EX_IOERR = 0, 64, 74
     SEEK_SET, SEEK_CUR, SEEK_END = 0, 1, 2
@@ -259,14 +263,12 @@ class FOs(object):
             raise ModelUnsupported('dir_fd')
 
     def stat(self, path, *, dir_fd=None, follow_symlinks=True):
-        self._nofd(dir_fd)
         if isinstance(path, int):
             return self._h.m.fstat(path)
-        return self._h.m.stat(path, follow_symlinks)
+        return self._h.m.stat(path, follow_symlinks, dir_fd)
 
     def lstat(self, path, *, dir_fd=None):
-        self._nofd(dir_fd)
-        return self._h.m.stat(path, False)
+        return self._h.m.stat(path, False, dir_fd)
 
     def fstat(self, fd):
         return self._h.m.fstat(fd)
@@ -279,7 +281,7 @@ class FOs(object):
         return self._h.m.listdir(path)
 
     def scandir(self, path='.'):
-        p = _real_os.fspath(path)
+        p = path if isinstance(path, int) else _real_os.fspath(path)
         return FScandirIterator([FDirEntry(self, p, n, k, i) for n, k, i in self._h.m.scandir(p)])
 
     def readlink(self, path, *, dir_fd=None):
@@ -297,8 +299,7 @@ class FOs(object):
         return self._h.m.mkdir(path, mode)
 
     def open(self, path, flags, mode=0o777, *, dir_fd=None):
-        self._nofd(dir_fd)
-        return self._h.m.open(path, flags, mode)
+        return self._h.m.open(path, flags, mode, dir_fd)
 
     def write(self, fd, data):
         return self._h.m.write(fd, data)
@@ -313,16 +314,13 @@ class FOs(object):
         return None
 
     def unlink(self, path, *, dir_fd=None):
-        self._nofd(dir_fd)
-        return self._h.m.unlink(path)
+        return self._h.m.unlink(path, dir_fd)
 
     def remove(self, path, *, dir_fd=None):
-        self._nofd(dir_fd)
-        return self._h.m.unlink(path)
+        return self._h.m.unlink(path, dir_fd)
 
     def rmdir(self, path, *, dir_fd=None):
-        self._nofd(dir_fd)
-        return self._h.m.rmdir(path)
+        return self._h.m.rmdir(path, dir_fd)
 
     def rename(self, src, dst, *, src_dir_fd=None, dst_dir_fd=None):
         self._nofd(src_dir_fd)
@@ -408,7 +406,10 @@ class Facades(object):
         _adopt_from_os_py(osf, ['makedirs', 'walk', 'removedirs', 'renames'])
         sh = _load_private('shutil', 'vf_shutil')
         sh.os = osf
-        sh._use_fd_functions = False
+        # as on Linux: the symlink-attack resistant, fd based rmtree
+        osf.supports_dir_fd = {osf.open, osf.stat, osf.unlink, osf.rmdir}
+        osf.supports_fd = {osf.scandir, osf.stat}
+        sh._use_fd_functions = True
         sh._USE_CP_SENDFILE = False
         sh._HAS_FCOPYFILE = False
         if hasattr(sh, '_USE_CP_COPY_FILE_RANGE'):
